@@ -221,6 +221,21 @@ pub fn op_of(frs: &[F], lws: &[f64], pen: [usize; 5]) -> (String, OfOut, Vec<usi
     (format!("of|{}|{}|{}|{}", enc_frags(&frs_tuple(frs)), enc_f64s(lws), enc_nats(&pen), enc_nats(&rows)), out, rows)
 }
 
+/// `WrapAlgorithm::wrap` on hand-built words: `alg` = 'f' (first-fit) or 'o' (optimal-fit, `pen`)
+pub fn op_walg(alg: char, pen: [usize; 5], words: &[Word<'_>], lws: &[usize]) -> (Op, Option<Vec<usize>>) {
+    #[cfg(feature = "full")]
+    let a = if alg == 'o' {
+        textwrap::WrapAlgorithm::OptimalFit(textwrap::wrap_algorithms::Penalties { nline_penalty: pen[0], overflow_penalty: pen[1], short_last_line_fraction: pen[2], short_last_line_penalty: pen[3], hyphen_penalty: pen[4] })
+    } else {
+        textwrap::WrapAlgorithm::FirstFit
+    };
+    #[cfg(not(feature = "full"))]
+    let a = textwrap::WrapAlgorithm::FirstFit;
+    let (r, mins) = with_minima(|| a.wrap(words, lws).iter().map(|l| l.len()).collect::<Vec<usize>>());
+    let real = r.as_ref().map(|v| enc_nats(v)).unwrap_or("panic".into());
+    (Op { req: format!("walg|{}|{}|{}|{}|{}", alg, enc_nats(&pen), enc_words(words), enc_nats(lws), mins), real }, r)
+}
+
 fn tail(o: &Opt, text: &str, opps: String, mins: String) -> String {
     format!("{}|{}|{}|{}|{}|{}", o.enc(), enc_text(&o.ii), enc_text(&o.si), enc_text(text), opps, mins)
 }
